@@ -320,7 +320,7 @@ func candidateLine(r *rand.Rand, fam string, d *Dialogue) string {
 		h + "#show clock", h + "> is the user prompt", "username: field is case sensitive", "Username: and password: are required",
 		"enter passphrase for key is not supported here", "Permission denied (try again)", "Connection timed out earlier today",
 		"Last login: Fri Oct  2 10:11:12 2026 from 10.0.0.5", "-->", "status:", "motd$", "login:", "old password: new password: confirm",
-		"no matching entries in the access list", "host key verification failed (cached)", d.User + "@" + h + "'s password: was changed",
+		"Please enter your username:", "Enter passphrase for key '/dev/null':", "no matching entries in the access list", "host key verification failed (cached)", d.User + "@" + h + "'s password: was changed",
 	}
 	if r.Intn(4) == 0 {
 		return tricky[r.Intn(len(tricky))]
@@ -667,6 +667,8 @@ func GenDialogue(r *rand.Rand, o GenOpts) (Dialogue, GenStats) {
 			addLongMotd(r, p, &d, &st)
 		case 1:
 			addNotices(r, p, &d, &st)
+		case 2:
+			addDecoys(r, p, &d, &st)
 		}
 	}
 	if !o.NoStall && r.Intn(5) == 0 {
@@ -748,6 +750,46 @@ func addNotices(r *rand.Rand, p *Patterns, d *Dialogue, st *GenStats) {
 	}
 	d.Seg.Mode = []string{"fixed", "geom", "mix"}[r.Intn(3)]
 	d.Seg.Size = []int{2, 3, 7, 16}[r.Intn(4)]
+}
+
+// addDecoys puts, in front of a real credential prompt and in the same read (uncut), a line that the
+// OTHER credential's pattern accepts while the device is asking for this one. Only the placements in
+// which a client that looks for the prompts in the documented order is not misled are generated:
+// telnet - a line ending in "password:" together with the user-name prompt (the user-name prompt is
+// looked for first); ssh - a line containing "enter passphrase for key" together with the password
+// prompt (the password prompt is looked for first). The reverse placements (a user-name-looking line
+// with the password prompt; a password-looking line with the passphrase prompt) and any decoy that
+// ends a read of its own mislead every client that recognises prompts by pattern, and stay excluded
+// by the no-ambiguous-prefix precondition. Lines that look like a credential the session type does
+// not know at all (user-name prompts in ssh dialogues, passphrase prompts in telnet dialogues) are
+// ordinary banner lines under any segmentation.
+func addDecoys(r *rand.Rand, p *Patterns, d *Dialogue, st *GenStats) {
+	var decoys []string
+	var target, want string
+	if d.Auth == "telnet" {
+		target, want = KUser, KPassword
+		decoys = []string{"Please enter your username and password:", "Enter login name, then password:", "Authentication required - user and Password: ",
+			"This console asks for a Password:"}
+	} else {
+		target, want = KPassword, KPassphrase
+		decoys = []string{"Enter passphrase for key '/home/" + d.User + "/.ssh/id_rsa' skipped (agent refused):", "note: enter passphrase for key is disabled on this host",
+			"debug1: Enter passphrase for key: not a tty"}
+	}
+	for i, s := range d.Steps {
+		if s.Kind != target || s.Uncut {
+			continue
+		}
+		dc := mangleCase(r, decoys[r.Intn(len(decoys))])
+		if m := p.matches(dc); len(m) != 1 || m[0] != want {
+			continue
+		}
+		if d.Auth == "ssh" && containsSSHWords(dc) {
+			continue
+		}
+		d.Steps[i].Text = dc + d.NL + s.Text
+		d.Steps[i].Uncut = true
+		st.Protected++
+	}
 }
 
 func genTransport(r *rand.Rand, d *Dialogue) {
@@ -842,6 +884,26 @@ func Sweep(r *rand.Rand) []Dialogue {
 				d.Steps = []Step{pw, {Kind: KBanner, Lines: []Line{{S: "Sorry, try again."}}}, pw, {Kind: KShell}}
 			}
 			addNotices(r, sessionPatterns(&d), &d, &st)
+			d.FirstOp = []string{"getprompt", "sendcommand", "readall"}[k%3]
+			Finish(&d)
+			out = append(out, d)
+		}
+		for k := 0; k < 6; k++ {
+			d := base(auth, []string{"generic", "network"}[n%2])
+			n++
+			pw := Step{Kind: KPassword, Text: d.User + "@" + d.Host + "'s password: "}
+			rej := Step{Kind: KBanner, Lines: []Line{{S: "Access denied"}}}
+			switch {
+			case auth == "telnet" && k%2 == 0:
+				d.Steps = []Step{{Kind: KUser, Text: "Username: "}, {Kind: KPassword, Text: "Password: "}, {Kind: KShell}}
+			case auth == "telnet":
+				d.Steps = []Step{{Kind: KUser, Text: "login: "}, {Kind: KPassword, Text: "Password: "}, rej, {Kind: KUser, Text: "login: "}, {Kind: KPassword, Text: "Password: "}, {Kind: KShell}}
+			case k%2 == 0:
+				d.Steps = []Step{pw, {Kind: KShell}}
+			default:
+				d.Steps = []Step{{Kind: KPassphrase, Text: "Enter passphrase for key '/tmp/k': "}, pw, rej, pw, {Kind: KShell}}
+			}
+			addDecoys(r, sessionPatterns(&d), &d, &st)
 			d.FirstOp = []string{"getprompt", "sendcommand", "readall"}[k%3]
 			Finish(&d)
 			out = append(out, d)
